@@ -452,3 +452,64 @@ func (v *PCView) ImpliesEdge(pred, succ *ssa.BasicBlock, r *Formula) (bool, []st
 func IsStructuralLiteral(lit string) bool {
 	return strings.Contains(lit, "rangeok:") || strings.Contains(lit, "lt0(len(")
 }
+
+// ImpliesVersioned decides a requirement about memory whose canonical text depends on the place where it is read
+// (mk renders it for a given instruction, with the version tags of that place). Where the plain test fails at a
+// join because the paths reaching it established the requirement for different versions of the same location (one
+// path tested the value as first loaded, another reloaded it and tested again), every incoming edge is decided with
+// the text of its own end: the location is not written along the edge, so what holds for the version at the end of
+// the predecessor holds for the joined version.
+func (fi *FuncInfo) ImpliesVersioned(at ssa.Instruction, mk func(at ssa.Instruction) *Formula) bool {
+	if ok, _ := fi.ImpliesAt(at, mk(at)); ok {
+		return true
+	}
+	state := map[*ssa.BasicBlock]int{} // 1 in progress, 2 holds, 3 fails
+	var holds func(b *ssa.BasicBlock) bool
+	holds = func(b *ssa.BasicBlock) bool {
+		switch state[b] {
+		case 1, 3:
+			return false
+		case 2:
+			return true
+		}
+		state[b] = 1
+		res := false
+		if ok, _ := fi.Implies(b, mk(b.Instrs[0])); ok {
+			res = true
+		} else if len(b.Preds) > 0 {
+			res = true
+			for _, p := range b.Preds {
+				if fi.IsBackEdge(p, b) {
+					res = false
+					break
+				}
+				last := p.Instrs[len(p.Instrs)-1]
+				f := mk(last)
+				if ok, _ := fi.View(f).ImpliesEdge(p, b, f); ok {
+					continue
+				}
+				if !fi.deep {
+					if ok, _ := fi.Deep().View(f).ImpliesEdge(p, b, f); ok {
+						continue
+					}
+				}
+				if mk(p.Instrs[0]).String() == f.String() && holds(p) {
+					continue
+				}
+				res = false
+				break
+			}
+		}
+		if res {
+			state[b] = 2
+		} else {
+			state[b] = 3
+		}
+		return res
+	}
+	b := at.Block()
+	if mk(b.Instrs[0]).String() != mk(at).String() {
+		return false
+	}
+	return holds(b)
+}
